@@ -6,6 +6,7 @@ import (
 	"sort"
 	"strings"
 	"testing"
+	"time"
 
 	"verif/lib/evid"
 	"verif/lib/host"
@@ -154,11 +155,12 @@ func TestC34(t *testing.T) {
 		return
 	}
 	for _, f := range findings {
-		if rec.Known(f.ID) {
+		if rec.Known(f.ID) && len(f.Repro.Steps) > 0 {
 			rec.ReportKnown(f.ID, evalC34(f.Repro).Msg != "")
 		}
 	}
 	collect := os.Getenv("DIFF_COLLECT") != ""
+	spent, count := map[string]float64{}, map[string]int{}
 	groups := map[string]*collected{}
 	r := evid.Rand(34)
 	n := evid.N(350, 4000)
@@ -172,7 +174,10 @@ func TestC34(t *testing.T) {
 		}
 		perSource[src.Name]++
 		rec.Class("source:" + src.Name)
+		t0 := time.Now()
 		msg, cs := runC34(rec, hist, findings)
+		spent[src.Name] += time.Since(t0).Seconds()
+		count[src.Name]++
 		if rec.WantSample(src.Name) && len(hist.Steps) > 0 {
 			rec.Sample(src.Name, map[string]any{"origin": hist.Origin, "features": hist.Features, "last_step": stepSource(hist, -1)})
 		}
@@ -191,6 +196,11 @@ func TestC34(t *testing.T) {
 		g.n++
 		g.sources[hist.Origin]++
 	}
+	perSrc := map[string]string{}
+	for k, v := range spent {
+		perSrc[k] = fmt.Sprintf("%d histories, %.1f s", count[k], v)
+	}
+	rec.Extra("time_per_source", perSrc)
 	for _, s := range Sources {
 		if s.Stats != nil {
 			rec.Extra("source_"+s.Name, s.Stats())
